@@ -2,6 +2,7 @@
 #[path = "/repo/rust/wasm/src/lib.rs"]
 #[allow(dead_code)]
 pub mod bridge;
+mod canon_table;
 mod util;
 mod real;
 mod proto;
